@@ -45,6 +45,9 @@ type Req struct {
 	Pattern   string // SCAN MATCH pattern ("" = none)
 	HasPat    bool
 	ConfigSet map[string]string
+	// Derive predicts, for a derived read-modify-write command, the remaining handler calls and the reply
+	// from what the first call (the read) returned.
+	Derive func(first *Call) (rest []string, reply *resp.Value)
 }
 
 // Commands lists every command name the framework registers.
@@ -651,18 +654,54 @@ func (g *Gen) valid(r *Req, name string) {
 	case "APPEND":
 		r.Mode = Sugar
 		r.ReplyOf = nil
-		a = append(a, k, g.val())
+		sfx := g.val()
+		a = append(a, k, sfx)
 		r.Expect = one("Get " + q(k))
-	case "DECR", "INCR", "STRLEN":
+		r.Derive = func(first *Call) ([]string, *resp.Value) {
+			if first.Reply == nil || first.Reply.K != resp.Bulk || first.Reply.Null {
+				return nil, nil
+			}
+			nv := string(first.Reply.S) + sfx
+			v := resp.In(int64(len(nv)))
+			return one("Set " + SigSet(k, nv, redis.SetOption{})), &v
+		}
+	case "STRLEN":
 		r.Mode = Sugar
 		r.ReplyOf = nil
 		a = append(a, k)
 		r.Expect = one("Get " + q(k))
-	case "DECRBY", "INCRBY":
+		r.Derive = func(first *Call) ([]string, *resp.Value) {
+			if first.Reply == nil || first.Reply.K != resp.Bulk || first.Reply.Null {
+				return nil, nil
+			}
+			v := resp.In(int64(len(first.Reply.S)))
+			return []string{}, &v
+		}
+	case "DECR", "INCR", "DECRBY", "INCRBY":
 		r.Mode = Sugar
 		r.ReplyOf = nil
-		a = append(a, k, strconv.Itoa([]int{1, 0, -1, 5, 1000}[g.d(5, "by")]))
+		delta := 1
+		a = append(a, k)
+		if strings.HasSuffix(name, "BY") {
+			delta = []int{1, 0, -1, 5, 1000}[g.d(5, "by")]
+			a = append(a, strconv.Itoa(delta))
+		}
+		if strings.HasPrefix(name, "DECR") {
+			delta = -delta
+		}
 		r.Expect = one("Get " + q(k))
+		r.Derive = func(first *Call) ([]string, *resp.Value) {
+			if first.Reply == nil || first.Reply.K != resp.Bulk || first.Reply.Null {
+				return nil, nil
+			}
+			cur, err := strconv.ParseInt(string(first.Reply.S), 10, 64)
+			if err != nil {
+				return nil, nil
+			}
+			nv := cur + int64(delta)
+			v := resp.In(nv)
+			return one("Set " + SigSet(k, strconv.FormatInt(nv, 10), redis.SetOption{})), &v
+		}
 	case "GETRANGE", "SUBSTR":
 		r.Mode = Sugar
 		r.ReplyOf = nil
